@@ -462,6 +462,12 @@ class Check:
             cov["traces_validated_against_impl"] = traces
         cov["samples"] = self.samples[:8] if self.samples else ["(none)"]
         cov["known_findings_hit"] = {k: n for k, (d, n, f) in self.known_hits.items()}
+        # listed known findings that this run did not reproduce: either the sample did not reach
+        # them or the entry is stale (the defect was repaired) — reported, never silently kept
+        not_hit = sorted(k for k in self.known if k not in self.known_hits)
+        cov["known_findings_not_reproduced"] = not_hit
+        for k in not_hit:
+            print("NOTE: property=%s known finding %s was not reproduced by this run (stale entry or not sampled)" % (self.pid, k))
         cov["broken"] = self.broken
         cov["violations_not_written"] = getattr(self, "suppressed", 0)
         if extra:
